@@ -24,6 +24,8 @@ class C14(Check):
     def corpus(self):
         return [
             {"target": 8, "replies": [0x14, 1, 2, 2, 4, 1, 8]},
+            {"target": 8, "replies": [0x14, 1, 2, 2, 4, 1, 8], "codes": [0] * 7},      # error flag with a status code of 0
+            {"target": 4, "replies": [1, 2, 0x12, 4], "codes": [0] * 4},
             {"target": 2, "replies": [1, 0x12]},          # requested state reported together with the error bit
             {"target": 4, "replies": [8]},
             {"target": 8, "replies": [1, 2, 0x14]},
@@ -64,7 +66,8 @@ class C14(Check):
             else:  # unstructured stream incl. invalid states, skipped states, regressions
                 rs = [rng.choice([1, 2, 4, 8, 1, 2, 4, 8, 3, 0x11, 0x12, 0x14, 0x18, 0, 5, 0x21])
                       for _ in range(rng.randint(1, 10))]
-            out.append({"target": target, "replies": rs})
+            # the AL status code register read along with every status: often 0 (terminals that never fill it in)
+            out.append({"target": target, "replies": rs, "codes": [rng.choice([0, 0, 0x1e, 0x55, 0x8000]) for _ in rs]})
         if self.tier == "thorough":
             for target in (2, 4, 8):
                 for L in range(1, 6):
@@ -77,6 +80,7 @@ class C14(Check):
         import struct
         trace = []
         replies = list(case["replies"])
+        codes = list(case.get("codes") or [0x55] * len(replies))
 
         class FakeEc:
             async def roundtrip(self, cmd, pos, offset, *args, data=None, idx=0):
@@ -86,7 +90,7 @@ class C14(Check):
                         raise OutOfReplies()
                     r = replies.pop(0)
                     trace.append([1, r])
-                    return (r, 0x55)
+                    return (r, codes.pop(0) if codes else 0)
                 if cmd is ECCmd.FPWR and offset == 0x120:
                     trace.append([0, args[1]])
                     return ()
